@@ -644,6 +644,8 @@ def check_C08(tr):
         return []
     if c.frozen or tr.stuck():
         return []        # aborted threads unwind silently; their elements are not accounted
+    if c.pod:
+        return []        # no destructor to observe
     bad = []
     moved, dropped, produced = ledger(tr)
     if c.zst:
